@@ -58,16 +58,25 @@ def perm_of(n: int, keys):
     return sorted(range(n), key=lambda i: (keys[i % len(keys)], i))
 
 
+def _as(form, items):
+    """The documented input forms of Acl.items: list, tuple, generator."""
+    if form == "tuple":
+        return tuple(items)
+    if form == "gen":
+        return (x for x in items)
+    return items
+
+
 def perform(acl: Acl, op: dict):
     """Apply op; returns a JSON-able result.  Library exceptions propagate."""
     k = op["op"]
     n = len(acl.items)
     if k == "set_platform":
-        acl.platform = op["p"]
+        acl.platform = op.get("spell") or op["p"]  # "spell": an accepted long platform name
         return None
     if k == "flip3":
         a = acl.platform
-        b = op["p"]
+        b = op.get("spell") or op["p"]
         from .aclobs import norm
         acl.platform = b
         t1 = acl.line
@@ -128,7 +137,7 @@ def perform(acl: Acl, op: dict):
         return None
     if k == "permute_setter":
         perm = perm_of(n, op["keys"])
-        acl.items = [acl.items[p] for p in perm]
+        acl.items = _as(op.get("as_"), [acl.items[p] for p in perm])
         return None
     if k == "permute_popins":
         if not n:
@@ -166,7 +175,7 @@ def perform(acl: Acl, op: dict):
         acl.extend([new_item(acl, ln) for ln in op["lines"]])
         return None
     if k == "items_self":
-        acl.items = list(acl.items)
+        acl.items = _as(op.get("as_"), list(acl.items))
         return None
     if k == "items_lines":
         # the setter path with plain strings (documented input type)
@@ -216,6 +225,15 @@ def perform(acl: Acl, op: dict):
             for it in addr.items:
                 got = it.ipnets()
                 got.append(IPv4Network("0.0.0.0/0"))
+        return None
+    if k == "scribble_names":
+        # a caller merges both platforms' port names in the dict PortName.names() returned
+        from cisco_acl import PortName
+        for proto in ("tcp", "udp"):
+            d = PortName(protocol=proto, platform=acl.platform).names()
+            d.update(PortName(protocol=proto,
+                              platform="nxos" if acl.platform == "ios" else "ios").names())
+            PortName(protocol=proto, platform=acl.platform).ports().clear()
         return None
     if k == "foreign_parse":
         # the ACL's body text offered to a group of the other platform (lines valid here may be
